@@ -20,6 +20,7 @@ __all__ = [
 ]
 VPK_SIG: Final = 0x55aa1234  #: The first byte of VPK files.
 DIR_ARCH_INDEX: Final = 0x7fff  #: The file index used for the ``_dir`` file.
+MAX_PRELOAD: Final = 0xffff  #: The length of the data in the directory tree is a 16-bit value.
 FileName: TypeAlias = Union[str, tuple[str, str], tuple[str, str, str]]
 
 
@@ -225,17 +226,16 @@ class FileInfo:
         # noinspection PyProtectedMember
         prefix = self.vpk._dir_prefix
 
-        if prefix is None:
-            self.start_data = data
-            self.arch_len = 0
-            return
+        dir_limit = self.vpk.dir_limit
+        if prefix is None or dir_limit is None:
+            # Singular VPK or no limit, everything is kept in the directory file.
+            arch_index = None
+            dir_limit = MAX_PRELOAD
+        # The rest has to go after the tree or into the numeric file.
+        dir_limit = min(dir_limit, MAX_PRELOAD)
 
-        self.start_data = data[:self.vpk.dir_limit]
-        if self.vpk.dir_limit is None:
-            # No limit, everything was put into the directory.
-            arch_data = b''
-        else:
-            arch_data = data[self.vpk.dir_limit:]
+        self.start_data = data[:dir_limit]
+        arch_data = data[dir_limit:]
 
         self.arch_len = len(arch_data)
 
